@@ -88,6 +88,7 @@ from pynguin.utils.report import (
     render_xml_coverage_report,
 )
 from pynguin.utils.statistics.runtimevariable import RuntimeVariable
+from pynguin.utils.verif_hooks import crash_point
 
 if TYPE_CHECKING:
     from collections.abc import Callable
@@ -662,6 +663,7 @@ def add_additional_metrics(  # noqa: D103
 
 def _run() -> ReturnCode:  # noqa: C901, PLR0915
     _verify_config()
+    crash_point("import")
     if (setup_result := _setup_and_check()) is None:
         return ReturnCode.SETUP_FAILED
     executor, test_cluster, constant_provider = setup_result
@@ -678,6 +680,7 @@ def _run() -> ReturnCode:  # noqa: C901, PLR0915
         executor, test_cluster, constant_provider
     )
     _LOGGER.info("Start generating test cases")
+    crash_point("search")
     generation_result = algorithm.generate_tests()
     if algorithm.resources_left():
         _LOGGER.info("Algorithm stopped before using all resources.")
@@ -695,6 +698,7 @@ def _run() -> ReturnCode:  # noqa: C901, PLR0915
     _track_search_metrics(algorithm, generation_result, coverage_metrics)
 
     # Generate assertions FIRST
+    crash_point("assertions")
     _generate_assertions(executor, generation_result, test_cluster)
 
     # Minimize assertions if configured (requires re-instrumentation for checked_instructions)
@@ -728,6 +732,7 @@ def _run() -> ReturnCode:  # noqa: C901, PLR0915
     executor.subject_properties.instrumentation_tracer.disable()
 
     # Export the generated test suites
+    crash_point("export")
     if config.configuration.test_case_output.export_strategy == config.ExportStrategy.PY_TEST:
         try:
             _export_chromosome(
